@@ -144,7 +144,16 @@ impl RawPixels {
         let expected_output_size = output_size(pixel_format, expected_pixel_count)?;
         reader
             .unzip(expected_output_size)
-            .and_then(|bytes| Self::from_bytes(bytes, pixel_format))
+            .and_then(|bytes| {
+                if bytes.len() != expected_output_size {
+                    return Err(AsepriteParseError::InvalidInput(format!(
+                        "Invalid data size. Expected: {}, Actual: {}",
+                        expected_output_size,
+                        bytes.len()
+                    )));
+                }
+                Self::from_bytes(bytes, pixel_format)
+            })
     }
 
     // pub(crate) fn byte_count(&self) -> usize {
